@@ -74,9 +74,6 @@ package cdcn
 //@ iface ScannerClassLike.FormatToken
 //@   requires token != nil
 //@   nopanic
-//@ iface ScannerClassLike.MatchToken
-//@   nopanic
-//@   ensures fresh(result) && result != nil
 //@ iface ScannerClassLike.Make
 //@   nopanic
 
@@ -233,4 +230,70 @@ package cdcn
 //@   ensures[C12] result.2 ==> result.0 != nil && nonnil(view(result.0))
 //@   loop 1:
 //@     invariant pready(this) && token != nil && catalog != nil && association != nil && fresh(catalog) && wellkeyed(view(catalog)) && allfresh(view(catalog)) && unchanged(aval)
+//@     decreases *
+
+// package-level class objects: initialised once in their declaration, never reassigned
+//@ global parserClass nonnil
+//@ global scannerClass nonnil
+//@ global formatterClass nonnil
+//@ global tokenClass nonnil
+//@ global notationClass nonnil
+//@ func (*parser_).ParseSource
+//@   props C12
+//@   safe
+//@   modifies everything
+//@   assumeat call8: nonnilq(this.tokens_)
+//@   loop 1:
+//@     invariant pready(this)
+//@     decreases *
+
+// ---------------------------------------------------------------- scanner (C12: cursor arithmetic, no runtime error)
+
+//@ assume func strings.Count
+//@   nopanic
+//@   ensures result >= 0 && result <= MAXLEN
+
+// assumption about regexp: every (sub)match returned for a text is a substring of that text
+//@ iface ScannerClassLike.MatchToken
+//@   nopanic
+//@   ensures fresh(result) && result != nil
+//@   ensures forall i :: 0 <= i && i < len(view(result)) ==> runes(unboxStr(view(result)[i])) <= runes(text)
+
+//@ type *scanner_
+//@   invariant[C12] 0 <= this.first_ && this.first_ <= this.next_ && this.next_ <= len(this.runes_) && this.line_ >= 1 && this.line_ <= MAXLEN && this.tokens_ != nil
+//@   hypothesis nonnilq(this.tokens_)
+
+//@ func (*scanner_).indexOfLastEOL
+//@   props C12
+//@   safe
+//@   nopanic
+//@   noinv
+//@   ensures[C12] 0 <= result && result <= len(runes)
+//@   loop 1:
+//@     invariant 0 <= index && index <= length && length == len(runes)
+//@     decreases index
+//@ func (*scanner_).emitToken
+//@   props C12
+//@   safe
+//@   modifies view(this.tokens_)
+//@ func (*scanner_).foundEOF
+//@   props C12
+//@   safe
+//@   modifies view(this.tokens_)
+//@ func (*scanner_).foundError
+//@   props C12
+//@   safe
+//@   requires this.next_ < len(this.runes_)
+//@   modifies this.next_, view(this.tokens_)
+//@ func (*scanner_).foundToken
+//@   props C12
+//@   safe
+//@   modifies this.next_, this.first_, this.line_, this.position_, view(this.tokens_)
+//@   ensures[C12] this.runes_ == old(this.runes_) && (!result ==> this.next_ == old(this.next_)) && (result ==> this.next_ >= old(this.next_))
+//@ func (*scanner_).scanTokens
+//@   props C12
+//@   safe
+//@   modifies this.next_, this.first_, this.line_, this.position_, view(this.tokens_)
+//@   loop 1:
+//@     invariant inv(scanner_, this)
 //@     decreases *
